@@ -411,10 +411,11 @@ func (appDB *AppDB) SetEmission(emission *big.Int) {
 	defer appDB.mu.Unlock()
 
 	appDB.emission = emission
+	appDB.isDirtyEmission = true
 }
 
 func (appDB *AppDB) SaveEmission() {
-	if appDB.isDirtyPrice == false {
+	if appDB.isDirtyEmission == false {
 		return
 	}
 
